@@ -171,6 +171,91 @@ def _closure_call_sites(body, clo):
     return out, holders
 
 
+_OPT_PRESERVING = re.compile(r"^std::option::Option(::<[^>]*>)?::(map|and_then|filter|zip|inspect|as_ref|as_mut|as_deref|as_deref_mut|take|cloned|copied|flatten)$")
+
+
+def _judge_value(facts, b, site, rv, edges_b, wanted, inner_edges_fn, clos, depth):
+    """One definition of an Option (or enum) value in body `b`, where `edges_b` are the edges of `b` on which the flag F
+    holds.  Returns (understood, every wanted variant is built under F, number of wanted values seen)."""
+    if depth > 5:
+        return False, True, 0
+    if rv["k"] == "agg" and rv.get("akind") == "adt":
+        if rv.get("variant") in wanted:
+            return True, any(b.edge_guards(ge, site.bb) for ge in edges_b), 1
+        return True, True, 0
+    if rv["k"] == "use" and rv["op"].get("k") == "const":
+        return True, True, 0
+    if rv["k"] != "call":
+        return False, True, 0
+    if any(b.edge_guards(ge, site.bb) for ge in edges_b):
+        # whatever this call yields (`cond.then(|| ..)`, a lookup, ..) is computed under F
+        return True, True, 1
+    node = rv["node"]
+    cn = strip_generics(node.get("callee") or "")
+    if "Some" in wanted and cn.endswith("::from_residual") and "option::Option" in cn:
+        return True, True, 0        # `x?` on an Option: the early return hands back None
+    clo = clos.get(cn)
+    if clo is None and facts is not None and "{closure#" in cn:
+        cb = facts.bodies.get(node.get("callee") or "") or facts.bodies.get(cn)
+        if cb is not None and cb.kind == "Closure":
+            clo = cb
+    if clo is None and facts is not None and node.get("args") and re.search(r"::call(_mut|_once)?$", cn):
+        # a call through a closure value that this body holds or captures: resolve it by the type of the callee operand
+        l0 = op_local(b.resolve_copy(node["args"][0]))
+        bl = borrowed_local(b, node["args"][0])
+        for l_ in (l0, bl):
+            ty = b.local_ty(l_) if l_ is not None else ""
+            m = re.search(r"\{closure@([^:}]+):(\d+):(\d+)", ty)
+            if m:
+                hits = [cb for cb in facts.bodies.values() if cb.kind == "Closure" and cb.relfile == m.group(1) and cb.line == int(m.group(2))]
+                if len(hits) == 1:
+                    clo = hits[0]
+            if clo is not None:
+                break
+    if clo is not None:
+        # the value a closure returns: the wanted variant only where the closure builds it
+        inner = inner_edges_fn(clo) if inner_edges_fn else []
+        ok, some_ok, n = True, True, 0
+        cl2 = {strip_generics(c_.name): c_ for c_ in facts.closures_of(clo, recursive=False)} if facts is not None else {}
+        for vsite, vrv in _value_defs(clo, 0):
+            o_, s_, n_ = _judge_value(facts, clo, vsite, vrv, inner, wanted, inner_edges_fn, cl2, depth + 1)
+            ok, some_ok, n = ok and o_, some_ok and s_, n + n_
+        return ok, some_ok, n
+    if _OPT_PRESERVING.match(cn) and node.get("args") and "Some" in wanted:
+        # `x.map(f)` / `x.and_then(f)` / `x.filter(p)` is Some only if x is: x being Some only under F is enough;
+        # for and_then, so is f returning Some only under F
+        tries = []
+        rl = op_local(b.resolve_copy(node["args"][0]))
+        if rl is None:
+            rl = borrowed_local(b, node["args"][0])
+        if rl is not None:
+            tries.append(list(_value_defs(b, rl)))
+        if cn.endswith("::and_then") and len(node["args"]) > 1:
+            fl = op_local(b.resolve_copy(node["args"][1]))
+            fd = b.single_def(fl) if fl is not None else None
+            if fd and fd[1] == "assign" and fd[2]["rv"]["k"] == "agg" and fd[2]["rv"].get("akind") == "closure" and facts is not None:
+                cb = facts.bodies.get(fd[2]["rv"].get("name"))
+                if cb is not None:
+                    tries.append([(None, {"k": "call", "node": {"callee": cb.name, "args": []}, "_clo": cb})])
+        for vals in tries:
+            ok, some_ok, n = bool(vals), True, 0
+            for vsite, vrv in vals:
+                if vsite is None:
+                    cb = vrv["_clo"]
+                    inner = inner_edges_fn(cb) if inner_edges_fn else []
+                    cl2 = {strip_generics(c_.name): c_ for c_ in facts.closures_of(cb, recursive=False)}
+                    for v2site, v2rv in _value_defs(cb, 0):
+                        o_, s_, n_ = _judge_value(facts, cb, v2site, v2rv, inner, wanted, inner_edges_fn, cl2, depth + 1)
+                        ok, some_ok, n = ok and o_, some_ok and s_, n + n_
+                    continue
+                o_, s_, n_ = _judge_value(facts, b, vsite, vrv, edges_b, wanted, inner_edges_fn, clos, depth + 1)
+                ok, some_ok, n = ok and o_, some_ok and s_, n + n_
+            if ok and some_ok:
+                return True, True, max(n, 1)
+        return False, True, 0
+    return False, True, 0
+
+
 def derive_some_edges(body, edges, inner_edges_fn=None):
     """Extend `edges` (edges on which a flag F is known to hold) by the Some edge of every test of an Option local
     that can be Some only under F: all its Some(..) values are built under F - in this body, or in a closure of it
@@ -211,35 +296,10 @@ def derive_some_edges(body, edges, inner_edges_fn=None):
             clos = {strip_generics(c_.name): c_ for c_ in facts.closures_of(body, recursive=False)} if facts is not None and body.kind != "Closure" else {}
             for r in roots:
                 for site, rv in _value_defs(body, r):
-                    if rv["k"] == "agg" and rv.get("akind") == "adt":
-                        if rv.get("variant") in wanted:
-                            n_some += 1
-                            if not any(body.edge_guards(ge, site.bb) for ge in edges):
-                                some_ok = False
-                    elif rv["k"] == "use" and rv["op"].get("k") == "const":
-                        pass
-                    elif rv["k"] == "call" and strip_generics(rv["node"].get("callee") or "") in clos:
-                        # the value a closure of this body returns: Some only where the closure builds Some
-                        clo = clos[strip_generics(rv["node"].get("callee") or "")]
-                        if any(body.edge_guards(ge, site.bb) for ge in edges):
-                            n_some += 1
-                            continue
-                        inner = inner_edges_fn(clo) if inner_edges_fn else []
-                        for vsite, vrv in _value_defs(clo, 0):
-                            if vrv["k"] == "agg" and vrv.get("akind") == "adt":
-                                if vrv.get("variant") in wanted:
-                                    n_some += 1
-                                    if not any(clo.edge_guards(ge, vsite.bb) for ge in inner):
-                                        some_ok = False
-                            elif vrv["k"] == "use" and vrv["op"].get("k") == "const":
-                                pass
-                            else:
-                                ok = False
-                    elif rv["k"] == "call" and any(body.edge_guards(ge, site.bb) for ge in edges):
-                        # whatever this call yields (`cond.then(|| ..)`, a lookup, ..) is computed under F
-                        n_some += 1
-                    else:
-                        ok = False
+                    o_, s_, n_ = _judge_value(facts, body, site, rv, edges, wanted, inner_edges_fn, clos, 0)
+                    ok = ok and o_
+                    some_ok = some_ok and s_
+                    n_some += n_
             # stores made by closures that capture the variable
             names = {body.local_name(r) for r in roots if body.local_name(r)}
             if facts is not None and names and body.kind != "Closure":
